@@ -809,8 +809,8 @@ theorem uint_u32 (wd : Width) (n : Nat) (rest : Bytes) (hv : (WItem.uint wd n).v
   simpa [encW, C05.intHead, C05.intVal] using this
 
 theorem pair_inv (va : VAttr) (enc : Encoding) (fs : Fields) (vs : List Val) (w' : WItem)
-    (h : (match w' with
-      | .array _ [kx, bx] =>
+    (h : (match pairItems w' with
+      | some (kx, bx) =>
           isUintW va.idx kx &&
           (match untagW va.tag bx with
            | some body =>
@@ -821,30 +821,85 @@ theorem pair_inv (va : VAttr) (enc : Encoding) (fs : Fields) (vs : List Val) (w'
                      | some cell => rfFields fs vs cell
                      | none => false))
            | none => false)
-      | _ => false) = true) :
-    ∃ wd kx bx body, w' = .array wd [kx, bx] ∧ isUintW va.idx kx = true ∧ untagW va.tag bx = some body ∧
+      | none => false) = true) :
+    ∃ kx bx body, pairItems w' = some (kx, bx) ∧ isUintW va.idx kx = true ∧ untagW va.tag bx = some body ∧
       (match va.shape with
        | .unit => isEmptyW enc body
        | _ =>
            (match bodyCells enc fs vs body with
             | some cell => rfFields fs vs cell
             | none => false)) = true := by
-  cases w' with
+  cases hp : pairItems w' with
+  | none => rw [hp] at h; simp at h
+  | some p =>
+    obtain ⟨kx, bx⟩ := p
+    rw [hp] at h
+    simp only [Bool.and_eq_true] at h
+    cases hub : untagW va.tag bx with
+    | none => rw [hub] at h; simp at h
+    | some body =>
+      rw [hub] at h
+      exact ⟨kx, bx, body, rfl, h.1, hub, h.2⟩
+
+/-- the two shapes of the wrapper. -/
+theorem pairItems_inv (w : WItem) (kx bx : WItem) (h : pairItems w = some (kx, bx)) :
+    (∃ wd, w = .array wd [kx, bx]) ∨ w = .arrayI [kx, bx] := by
+  cases w with
   | array wd xs =>
     match xs, h with
-    | [kx, bx], h =>
-      simp only [Bool.and_eq_true] at h
-      cases hub : untagW va.tag bx with
-      | none => rw [hub] at h; simp at h
-      | some body =>
-        rw [hub] at h
-        exact ⟨wd, kx, bx, body, rfl, h.1, hub, h.2⟩
-    | [], h => simp at h
-    | [_], h => simp at h
-    | _ :: _ :: _ :: _, h => simp at h
-  | _ => simp at h
+    | [a, b], h => simp [pairItems] at h; obtain ⟨rfl, rfl⟩ := h; exact Or.inl ⟨wd, rfl⟩
+    | [], h => simp [pairItems] at h
+    | [_], h => simp [pairItems] at h
+    | _ :: _ :: _ :: _, h => simp [pairItems] at h
+  | arrayI xs =>
+    match xs, h with
+    | [a, b], h => simp [pairItems] at h; obtain ⟨rfl, rfl⟩ := h; exact Or.inr rfl
+    | [], h => simp [pairItems] at h
+    | [_], h => simp [pairItems] at h
+    | _ :: _ :: _ :: _, h => simp [pairItems] at h
+  | _ => simp [pairItems] at h
 
-/-- **an enum in any re-framing** (the pair `[index, body]` definite, of any head width). -/
+theorem seq_run {α β γ : Type} (A : Dec β) (F : β → Dec α) (G : α → Dec γ) (bs : Bytes) (a : α) (r : Bytes)
+    (h : (A >>= F) bs = .ok a r) : (do let k ← A; let v ← F k; G v : Dec γ) bs = G a r := by
+  simp only [Dec.bind_run] at h ⊢
+  cases hA : A bs with
+  | ok k r1 => rw [hA] at h; simp only at h ⊢; rw [h]
+  | err e r1 => rw [hA] at h; cases h
+  | panic => rw [hA] at h; cases h
+
+/-- the wrapper of an enum, in either form, around whatever reads the index (`A`) and the body (`F`):
+    the head, the two items, then (indefinite form) the break. -/
+theorem wrapper_run {α β : Type} (w kx bx : WItem) (hp : pairItems w = some (kx, bx)) (hw : w.valid = true) (rest : Bytes)
+    (A : Dec β) (F : β → Dec α) (a : α) (hm : ∀ r, (A >>= F) (encW kx ++ (encW bx ++ r)) = .ok a r) :
+    (do
+      let indef ← (do
+        let n ← Dec.array
+        match n with
+        | some k => if k == 2 then pure false else Dec.fail .message
+        | none => pure true : Dec Bool)
+      let k ← A
+      let v ← F k
+      wrapperEnd indef
+      pure v : Dec α) (encW w ++ rest) = .ok a rest := by
+  rcases pairItems_inv w kx bx hp with ⟨wd, rfl⟩ | rfl
+  · simp only [WItem.valid, validAll, Bool.and_eq_true, Bool.and_true] at hw
+    have harr := C04.array_sound wd 2 (encW kx ++ (encW bx ++ rest)) hw.1
+    have hbytes : encW (.array wd [kx, bx]) ++ rest = headW 4 wd 2 ++ (encW kx ++ (encW bx ++ rest)) := by
+      simp [encW, encWs, List.append_assoc]
+    rw [hbytes, Dec.bind_run, Dec.bind_run, harr]
+    simp only [beq_self_eq_true, if_true, Dec.pure_run]
+    rw [seq_run A F _ _ a rest (hm rest)]
+    simp [wrapperEnd, Dec.bind_run, Dec.pure_run]
+  · have hbytes : encW (.arrayI [kx, bx]) ++ rest = 0x9f :: (encW kx ++ (encW bx ++ (0xff :: rest))) := by
+      simp [encW, encWs, List.append_assoc]
+    have harr : Dec.array (0x9f :: (encW kx ++ (encW bx ++ (0xff :: rest)))) = .ok none (encW kx ++ (encW bx ++ (0xff :: rest))) :=
+      C04.array_indef _
+    rw [hbytes, Dec.bind_run, Dec.bind_run, harr]
+    simp only [Dec.pure_run]
+    rw [seq_run A F _ _ a (0xff :: rest) (hm (0xff :: rest))]
+    simp [wrapperEnd, Dec.bind_run, Dec.pure_run, datatype_break, skip_break]
+
+/-- **an enum in any re-framing** (the pair `[index, body]` definite, of any head width, or indefinite). -/
 theorem enum_reframed (e : EAttr) (vars : Variants) (k : Nat) (vs : List Val) (w : WItem) (rest : Bytes)
     (hacc : accepted (.enum e vars) = true) (hv : hasVars vars k vs = true) (hw : w.valid = true)
     (hrf : rf (.enum e vars) (.enum k vs) w = true) (hitems : FieldsRF (nthFields vars k) vs) :
@@ -873,42 +928,42 @@ theorem enum_reframed (e : EAttr) (vars : Variants) (k : Nat) (vs : List Val) (w
     cases hix : e.indexOnly
     · rw [hix] at hrf
       simp only [Bool.false_eq_true, if_false] at hrf
-      obtain ⟨wd, kx, bx, body, rfl, hkx, hub, hcond⟩ := pair_inv va _ fs vs w' hrf
-      simp only [WItem.valid, validAll, Bool.and_eq_true, Bool.and_true] at hw'
+      obtain ⟨kx, bx, body, hpair, hkx, hub, hcond⟩ := pair_inv va _ fs vs w' hrf
       obtain ⟨wk, rfl⟩ := isUintW_eq va.idx kx hkx
-      have hk := uint_u32 wk va.idx (encW bx ++ rest) hw'.2.1 hidx'
-      obtain ⟨htb, hbody⟩ := tag_rf va.tag bx body rest hw'.2.2 hub
-      have harr := C04.array_sound wd 2 (encW (.uint wk va.idx) ++ (encW bx ++ rest)) hw'.1
-      have hbytes : encW (.array wd [.uint wk va.idx, bx]) ++ rest
-          = headW 4 wd 2 ++ (encW (.uint wk va.idx) ++ (encW bx ++ rest)) := by
-        simp [encW, encWs, List.append_assoc]
-      rw [hbytes]
+      have hvalid : (WItem.uint wk va.idx).valid = true ∧ bx.valid = true := by
+        rcases pairItems_inv w' _ bx hpair with ⟨wd, rfl⟩ | rfl <;>
+          simp only [WItem.valid, validAll, Bool.and_eq_true, Bool.and_true] at hw' <;> simp [WItem.valid, hw']
+      -- what is read between the head of the wrapper and its end
+      have hm : ∀ r, (do let k ← Dec.intAcc .u32; findVariant (decVars e vars) 0 k.toNat : Dec Val)
+          (encW (.uint wk va.idx) ++ (encW bx ++ r)) = .ok (.enum k (defaultsFields fs vs)) r := by
+        intro r
+        have hk := uint_u32 wk va.idx (encW bx ++ r) hvalid.1 hidx'
+        obtain ⟨htb, hbody⟩ := tag_rf va.tag bx body r hvalid.2 hub
+        rw [Dec.bind_run, hk]
+        simp only [Int.toNat_natCast]
+        rw [hfind]
+        simp only [Nat.zero_add, varBody]
+        cases hsh : va.shape
+        · -- unit variant: the body is skipped
+          have hfs' := hunit hsh
+          subst hfs'
+          have hvs : vs = [] := by cases vs <;> simp [hasFields] at hty ⊢
+          subst hvs
+          rw [hsh] at hcond
+          simp only at hcond
+          simp only [hix, Bool.false_eq_true, if_false, Dec.bind_run, htb, skip_emptyW _ body r hcond, Dec.pure_run,
+            defaultsFields]
+        all_goals
+          rw [hsh] at hcond
+          simp only at hcond
+          cases hbc : bodyCells (va.enc.getD (e.enc.getD .array)) fs vs body with
+          | none => rw [hbc] at hcond; simp at hcond
+          | some cell =>
+            rw [hbc] at hcond
+            have := body_reframed _ fs vs body r haccF hndF hty hbody cell hbc hcond hitems
+            simp only [Dec.bind_run, htb, this, Dec.pure_run]
       simp only [Bool.false_eq_true, if_false]
-      rw [Dec.bind_run, Dec.bind_run, harr]
-      simp only [beq_self_eq_true, if_true, Dec.pure_run]
-      rw [Dec.bind_run, hk]
-      simp only [Int.toNat_natCast]
-      rw [hfind]
-      simp only [Nat.zero_add, varBody]
-      cases hsh : va.shape
-      · -- unit variant: the body is skipped
-        have hfs' := hunit hsh
-        subst hfs'
-        have hvs : vs = [] := by cases vs <;> simp [hasFields] at hty ⊢
-        subst hvs
-        rw [hsh] at hcond
-        simp only at hcond
-        simp only [hix, Bool.false_eq_true, if_false, Dec.bind_run, htb, skip_emptyW _ body rest hcond, Dec.pure_run,
-          defaultsFields]
-      all_goals
-        rw [hsh] at hcond
-        simp only at hcond
-        cases hbc : bodyCells (va.enc.getD (e.enc.getD .array)) fs vs body with
-        | none => rw [hbc] at hcond; simp at hcond
-        | some cell =>
-          rw [hbc] at hcond
-          have := body_reframed _ fs vs body rest haccF hndF hty hbody cell hbc hcond hitems
-          simp only [Dec.bind_run, htb, this, Dec.pure_run]
+      exact wrapper_run w' (.uint wk va.idx) bx hpair hw' rest (Dec.intAcc .u32) (fun k => findVariant (decVars e vars) 0 k.toNat) _ hm
     · rw [hix] at hrf
       simp only [if_true] at hrf
       obtain ⟨wk, rfl⟩ := isUintW_eq va.idx w' hrf
@@ -920,7 +975,7 @@ theorem enum_reframed (e : EAttr) (vars : Variants) (k : Nat) (vs : List Val) (w
       subst hvs
       simp only [if_true, Dec.bind_run, Dec.pure_run, hk, Int.toNat_natCast]
       rw [hfind]
-      simp [varBody, hsh, hix, Dec.bind_run, defaultsFields]
+      simp [varBody, hsh, hix, Dec.bind_run, defaultsFields, wrapperEnd]
 
 /-- the nil-aware custom codec on a re-framed item. -/
 theorem nilu_rf (i : Int) (y : WItem) (r : Bytes) (hi : IntK.u32.inRange i = true) (hy : y.valid = true)
